@@ -7,6 +7,10 @@
     writer.partition_on_columns   -> gen_dir_path / gen_relname   (directory naming only: the `path = join_path(...)` and
                                                                    `relname = join_path(path, partname)` statements)
     util.val_from_meta            -> gen_bool_true_texts     (inventory: the texts the bool branch accepts as True)
+                                     gen_val_from_meta       (the dispatch: categorical / datetimetz / bool / numpy scalar, the ValueError handler)
+    core.read_row_group           -> gen_row_partitions / gen_row_value / gen_row_cell   (the partition-column fill)
+    util.metadata_from_many       -> gen_verify_raises       (verify_schema: which files are compared with which, by `!=` on the lists of
+                                                              SchemaElement objects - not on a rendering of them)
     util.metadata_from_many       -> gen_fast_rel            (fast path only: the relative path `f[len(basepath):].lstrip("/")` stored in
                                                               the first chunk of every row group; both occurrences must agree)
     api._path_to_cats             -> gen_hive_hits / gen_drill_hits / gen_add_hit / gen_final_cats / gen_path_to_cats
@@ -21,8 +25,9 @@
 Output: Gen/GenPaths.v (logical root PqGen) over the vocabulary of coq/theories/Impl/Partition.v (str = list ascii, split_on,
 join_with, join_path, parse_int, lower, mem_str, value, ...) and coq/theories/Impl/PyPaths.v (py_find_break, py_format,
 py_rsplit1_head, py_is_timestamp, py_isoformat, py_str).  The theorems of coq/genproofs/GenPathsProofs.v are re-proved on this
-text on every run.  FAIL CLOSED: any construct outside the fragment below raises Unsupported with the source location; the
-check then falls back to the hand model + correspondence and records `translator_fallback`.
+text on every run.  FAIL CLOSED, PER FUNCTION (translate_units): every function above is a unit; a construct outside the fragment below
+raises Unsupported with the source location for THAT unit (and the units that call it) only - the check leaves it to the hand model +
+correspondence, records `translator_fallback` with the reason, and compiles the proof blocks (`(* @needs unit ... *)`) of the other units.
 
 Fragment
   types        str | list str | list (list str) | list (A * B) | nat | bool | value | list value | option str (parameter `root`)
@@ -606,6 +611,165 @@ def target_names(t):
     return ",".join(n.id for n in ast.walk(t) if isinstance(n, ast.Name))
 
 
+# ------------------------------------------------------------------------------------------------ util.val_from_meta
+def translate_val_from_meta(fd, path_date_fmt_ok):
+    """the dispatch of util.val_from_meta: which conversion for which pandas / numpy type, in which order, and what the
+    `except ValueError` handler does.  The conversions themselves are parameters (numpy / pandas):
+        np_scalar numpy_type x        np.dtype(numpy_type).type(x)
+        py_timestamp_tz x             pd.Timestamp(x) put into the zone of the metadata
+        py_to_datetime_fmt x          pd.to_datetime(x, format=PATH_DATE_FMT)"""
+    stmts = [x for x in fd.body if not (isinstance(x, ast.Expr) and isinstance(x.value, ast.Constant))]
+    if not (len(stmts) == 1 and isinstance(stmts[0], ast.Try) and len(stmts[0].handlers) == 1 and not stmts[0].orelse and not stmts[0].finalbody
+            and stmts[0].handlers[0].type is not None and ast.unparse(stmts[0].handlers[0].type) == "ValueError"):
+        _bad(fd, "val_from_meta is not one try / except ValueError")
+    tr = stmts[0]
+
+    def meta_field(e):
+        """meta['pandas_type'] / meta['numpy_type'] -> Gallina name"""
+        for k in ("pandas_type", "numpy_type"):
+            if same_expr(e, "meta['%s']" % k):
+                return k
+        return None
+
+    def cond(test, t_bound):
+        if not (isinstance(test, ast.Compare) and len(test.ops) == 1 and isinstance(test.ops[0], ast.Eq)
+                and isinstance(test.comparators[0], ast.Constant) and isinstance(test.comparators[0].value, str)):
+            _bad(test, "condition of val_from_meta")
+        c = str_const(test.comparators[0].value, test)
+        k = meta_field(test.left)
+        if k is not None:
+            return "str_eqb %s %s" % (k, c)
+        if t_bound and same_expr(test.left, "t"):      # t = np.dtype(meta['numpy_type']); t == "name": the dtype of that name
+            return "str_eqb numpy_type %s" % c
+        _bad(test, "condition of val_from_meta")
+
+    branches, t_bound, final = [], False, None
+    for x in tr.body:
+        if final is not None:
+            _bad(x, "statement after the final return of val_from_meta")
+        if isinstance(x, ast.Assign) and same_expr(x.value, "np.dtype(meta['numpy_type'])") and target_names(x.targets[0]) == "t":
+            t_bound = True
+        elif isinstance(x, ast.If) and not x.orelse:
+            c = cond(x.test, t_bound)
+            body = [b for b in x.body]
+            src = [ast.unparse(b) for b in body]
+            if len(body) == 2 and same_expr(body[0].value, "(meta.get('metadata') or {}).get('labels')") and target_names(body[0].targets[0]) == "labels" \
+                    and isinstance(body[1], ast.Return) and same_expr(body[1].value, "val_from_meta(x, labels) if labels else x"):
+                br = "match labels with Some l => gen_val_from_meta x l | None => Ok (VStr x) end"
+            elif len(body) == 3 and src[0] == "ts = pd.Timestamp(x)" and src[1] == "tz = (meta.get('metadata') or {}).get('timezone', 'UTC')" \
+                    and src[2] == "return ts.tz_convert(tz) if ts.tzinfo is not None else ts.tz_localize(tz)":
+                br = "py_timestamp_tz x"
+            elif len(body) == 1 and isinstance(body[0], ast.Return) and isinstance(body[0].value, ast.Compare) and len(body[0].value.ops) == 1 \
+                    and isinstance(body[0].value.ops[0], ast.In) and same_expr(body[0].value.left, "x") and isinstance(body[0].value.comparators[0], ast.List):
+                texts = []
+                for e in body[0].value.comparators[0].elts:
+                    if not isinstance(e, ast.Constant) or not isinstance(e.value, (str, bool, int)):
+                        _bad(e, "member of the bool literal list")
+                    if isinstance(e.value, str):      # x is a text: True == 1 == "1" is false for a str
+                        texts.append(str_const(e.value, e))
+                br = "Ok (VBool (mem_str x gen_bool_true_texts))"      # the list itself is the unit `booltexts`
+            else:
+                _bad(x, "branch of val_from_meta")
+            branches.append((c, br))
+        elif isinstance(x, ast.Return) and t_bound and same_expr(x.value, "np.dtype(t).type(x)"):
+            final = "np_scalar numpy_type x"
+        else:
+            _bad(x, "statement of val_from_meta")
+    if final is None:
+        _bad(fd, "val_from_meta does not end in np.dtype(t).type(x)")
+    h = tr.handlers[0].body
+    if not (len(h) == 1 and isinstance(h[0], ast.If) and len(h[0].body) == 1 and len(h[0].orelse) == 1 and isinstance(h[0].orelse[0], ast.Raise)
+            and h[0].orelse[0].exc is None and isinstance(h[0].body[0], ast.Return)
+            and same_expr(h[0].body[0].value, "pd.to_datetime(x, format=PATH_DATE_FMT)") and path_date_fmt_ok):
+        _bad(tr.handlers[0], "handler of val_from_meta")
+    hc = cond(h[0].test, False)
+    chain = final
+    for c, br in reversed(branches):
+        chain = "if %s then %s\n      else %s" % (c, br, chain)
+    return ("  (* util.val_from_meta, line %d: the dispatch; np_scalar / py_timestamp_tz / py_to_datetime_fmt are numpy's and pandas' conversions *)\n"
+            "  Section GenMeta.\n"
+            "  Variable np_scalar : str -> str -> res value.\n  Variable py_timestamp_tz : str -> res value.\n  Variable py_to_datetime_fmt : str -> res value.\n"
+            "  Fixpoint gen_val_from_meta (x : str) (meta : pmeta) : res value :=\n"
+            "    match meta with PMeta pandas_type numpy_type labels =>\n"
+            "    py_except_ValueError\n      (%s)\n      (if %s then py_to_datetime_fmt x else VErr)\n    end.\n  End GenMeta.\n\n" % (fd.lineno, chain, hc))
+
+
+# ------------------------------------------------------------------------------------------------ core.read_row_group
+def translate_row_fill(fd):
+    """the partition-column fill at the end of core.read_row_group: directory of the row group -> (key, val) of column `cat` ->
+    the code cats[cat].index(val)"""
+    loop = None
+    for x in fd.body:
+        if isinstance(x, ast.For) and same_expr(x.iter, "cats") and target_names(x.target) == "cat":
+            loop = x
+    if loop is None or loop.orelse:
+        _bad(fd, "`for cat in cats:` not found in read_row_group")
+    body = list(loop.body)
+    if body and isinstance(body[0], ast.If) and same_expr(body[0].test, "cat not in assign") and len(body[0].body) == 1 \
+            and isinstance(body[0].body[0], ast.Continue) and not body[0].orelse:
+        body = body[1:]            # a partition column that was not asked for
+    if len(body) != 4:
+        _bad(loop, "body of the partition-column loop")
+    sel, unp, conv, fill = body
+
+    class FnRow(Fn):
+        def E(self, e, env):
+            if same_expr(e, "rg.columns[0].file_path"):
+                return "file_path", "str"
+            if isinstance(e, ast.Tuple) and len(e.elts) == 2:      # a pair is a sequence of two
+                a, ta = self.E(e.elts[0], env)
+                b, tb = self.E(e.elts[1], env)
+                if ta != "str" or tb != "str":
+                    _bad(e, "tuple of %s, %s" % (ta, tb))
+                return "[%s; %s]" % (a, b), "list str"
+            if isinstance(e, ast.BinOp) and isinstance(e.op, ast.Mod) and isinstance(e.left, ast.Constant) and e.left.value == "dir%i" \
+                    and isinstance(e.right, ast.Name) and env.get(e.right.id) == "nat":
+                return "(%s ++ show_nat %s)" % (str_const("dir", e), ident(e.right.id)), "str"
+            return Fn.E(self, e, env)
+
+        def call(self, e, env):
+            if isinstance(e.func, ast.Name) and e.func.id == "enumerate" and len(e.args) == 1 and not e.keywords:
+                a, ta = self.E(e.args[0], env)
+                return "(py_enumerate %s)" % a, "list (nat * %s)" % elem_type(ta, e)
+            return Fn.call(self, e, env)
+    f = FnRow("read_row_group", {})
+    if not (isinstance(sel, ast.If) and same_expr(sel.test, "scheme == 'hive'") and len(sel.body) == 1 and len(sel.orelse) == 1
+            and all(isinstance(b, ast.Assign) and target_names(b.targets[0]) == "partitions" for b in (sel.body[0], sel.orelse[0]))):
+        _bad(sel, "selection of the partitions by scheme")
+    hv, th = f.E(sel.body[0].value, {})
+    dr, td = f.E(sel.orelse[0].value, {})
+    if th != "list (list str)" or td != "list (list str)":
+        _bad(sel, "partitions of type %s / %s" % (th, td))
+    # key, val = [p for p in partitions if p[0] == cat][0]
+    if not (isinstance(unp, ast.Assign) and target_names(unp.targets[0]) == "key,val" and same_expr(unp.value, "[p for p in partitions if p[0] == cat][0]")):
+        _bad(unp, "selection of the column's (key, val)")
+    # if not all(isinstance(label, str) for label in cats[cat]): val = val_to_num(val, meta=partition_meta.get(key))
+    if not (isinstance(conv, ast.If) and same_expr(conv.test, "not all(isinstance(label, str) for label in cats[cat])") and not conv.orelse
+            and len(conv.body) == 1 and ast.unparse(conv.body[0]) == "val = val_to_num(val, meta=partition_meta.get(key))"):
+        _bad(conv, "conversion of the directory value")
+    if ast.unparse(fill) != "assign[cat][:] = cats[cat].index(val)":
+        _bad(fill, "fill of the partition column")
+    return ("  (* core.read_row_group, line %d: the partition columns of a row group.  labels = cats[cat]; veqb_ is Python's == under list.index;\n"
+            "     val_to_num_ stands for util.val_to_num; None = an exception (IndexError, ValueError of the unpack / of list.index, conversion error) *)\n"
+            "  Definition gen_row_partitions (hive : bool) (file_path : str) : list (list str) :=\n"
+            "  if hive then %s\n  else %s.\n\n"
+            "  Section GenRow.\n"
+            "  Variable val_to_num_ : option kind -> str -> res value.\n  Variable veqb_ : value -> value -> bool.\n"
+            "  Definition gen_row_value (hive : bool) (partition_meta : list (str * kind)) (cat : str) (labels : list value) (file_path : str) : option value :=\n"
+            "  match filter (fun p => match p with p0 :: _ => str_eqb p0 cat | [] => false end) (gen_row_partitions hive file_path) with\n"
+            "  | p :: _ => match pair_of p with\n"
+            "              | Some (key, val) => if negb (forallb (is_vstr F T D) labels) then opt_of_res (val_to_num_ (alist_get key partition_meta) val)\n"
+            "                                   else Some (VStr val)\n"
+            "              | None => None\n              end\n"
+            "  | [] => None\n  end.\n"
+            "  (* assign[cat][:] = cats[cat].index(val): the code; the frame shows labels[code] *)\n"
+            "  Definition gen_row_cell (hive : bool) (partition_meta : list (str * kind)) (file_path : str) (c : str * list value) : option (str * value) :=\n"
+            "  match gen_row_value hive partition_meta (fst c) (snd c) file_path with\n"
+            "  | Some v => match index_of veqb_ v (snd c) with\n"
+            "              | Some i => option_map (pair (fst c)) (nth_error (snd c) i)\n              | None => None\n              end\n"
+            "  | None => None\n  end.\n  End GenRow.\n\n" % (loop.lineno, hv, dr))
+
+
 # ------------------------------------------------------------------------------------------------ api._path_to_cats
 def translate_path_to_cats(fd):
     """-> Gallina text (inside Section GenValues) for api._path_to_cats"""
@@ -763,190 +927,293 @@ Local Open Scope bool_scope.
 """
 
 
-def translate(util_src, writer_src, api_src=None):
-    """-> Gallina text of Gen/GenPaths.v"""
+def translate_units(util_src, writer_src, api_src=None, core_src=None):
+    """-> (Gallina text of Gen/GenPaths.v, [units translated], {unit that failed closed: reason}).
+    Every function is its own unit: a construct outside the fragment switches off that unit (and the units that call it) only."""
     import os
     ut = ast.parse(open(util_src).read())
     wt = ast.parse(open(writer_src).read())
     at = ast.parse(open(api_src or os.path.join(os.path.dirname(util_src), "api.py")).read())
-    out = [HEADER]
+    ct = ast.parse(open(core_src or os.path.join(os.path.dirname(util_src), "core.py")).read())
+    def u_analyse():
+        out = []
+        # ---- util.analyse_paths(file_list, root=False)
+        fd = find_def(ut, "analyse_paths")
+        params(fd, ["file_list", "root"])
+        if not (len(fd.args.defaults) == 1 and isinstance(fd.args.defaults[0], ast.Constant) and fd.args.defaults[0].value is False):
+            raise Unsupported("analyse_paths: default of root is not False")
 
-    # ---- util.analyse_paths(file_list, root=False)
-    fd = find_def(ut, "analyse_paths")
-    params(fd, ["file_list", "root"])
-    if not (len(fd.args.defaults) == 1 and isinstance(fd.args.defaults[0], ast.Constant) and fd.args.defaults[0].value is False):
-        raise Unsupported("analyse_paths: default of root is not False")
+        def ret_ap(vals, node):
+            if vals == "IndexError":
+                return "AIndexError"
+            if vals == "AssertionError":
+                return "AAssertion"
+            if len(vals) == 2 and vals[0][1] == "str" and vals[1][1] == "list str":
+                return "AOk %s %s" % (vals[0][0], vals[1][0])
+            _bad(node, "analyse_paths returns %r" % ([v[1] for v in vals],))
+        body = Fn("analyse_paths", {}).block(fd.body, {"file_list": "list str", "root": "option str"}, ret_ap)
+        out.append("(* util.analyse_paths, line %d; root : None stands for `root is False` *)\n"
+                   "Definition gen_analyse_paths (file_list : list str) (root : option str) : ares :=\n  %s.\n\n" % (fd.lineno, body))
 
-    def ret_ap(vals, node):
-        if vals == "IndexError":
-            return "AIndexError"
-        if vals == "AssertionError":
-            return "AAssertion"
-        if len(vals) == 2 and vals[0][1] == "str" and vals[1][1] == "list str":
-            return "AOk %s %s" % (vals[0][0], vals[1][0])
-        _bad(node, "analyse_paths returns %r" % ([v[1] for v in vals],))
-    body = Fn("analyse_paths", {}).block(fd.body, {"file_list": "list str", "root": "option str"}, ret_ap)
-    out.append("(* util.analyse_paths, line %d; root : None stands for `root is False` *)\n"
-               "Definition gen_analyse_paths (file_list : list str) (root : option str) : ares :=\n  %s.\n\n" % (fd.lineno, body))
+        return "".join(out)
+    def u_strip():
+        out = []
+        # ---- util._strip_path_tail(paths): {f(path) for path in paths}
+        fd = find_def(ut, "_strip_path_tail")
+        params(fd, ["paths"])
+        stmts = [s for s in fd.body if not (isinstance(s, ast.Expr) and isinstance(s.value, ast.Constant))]
+        if not (len(stmts) == 1 and isinstance(stmts[0], ast.Return) and isinstance(stmts[0].value, ast.SetComp)
+                and len(stmts[0].value.generators) == 1 and not stmts[0].value.generators[0].ifs
+                and isinstance(stmts[0].value.generators[0].target, ast.Name)
+                and isinstance(stmts[0].value.generators[0].iter, ast.Name) and stmts[0].value.generators[0].iter.id == "paths"):
+            raise Unsupported("_strip_path_tail is not a set comprehension over paths")
+        var = stmts[0].value.generators[0].target.id
+        elt = stmts[0].value.elt
 
-    # ---- util._strip_path_tail(paths): {f(path) for path in paths}
-    fd = find_def(ut, "_strip_path_tail")
-    params(fd, ["paths"])
-    stmts = [s for s in fd.body if not (isinstance(s, ast.Expr) and isinstance(s.value, ast.Constant))]
-    if not (len(stmts) == 1 and isinstance(stmts[0], ast.Return) and isinstance(stmts[0].value, ast.SetComp)
-            and len(stmts[0].value.generators) == 1 and not stmts[0].value.generators[0].ifs
-            and isinstance(stmts[0].value.generators[0].target, ast.Name)
-            and isinstance(stmts[0].value.generators[0].iter, ast.Name) and stmts[0].value.generators[0].iter.id == "paths"):
-        raise Unsupported("_strip_path_tail is not a set comprehension over paths")
-    var = stmts[0].value.generators[0].target.id
-    elt = stmts[0].value.elt
+        class FnStrip(Fn):
+            def subscript(self, e, env):       # path.rsplit("/", 1)[0]
+                v = e.value
+                if isinstance(e.slice, ast.Constant) and e.slice.value == 0 and isinstance(v, ast.Call) and isinstance(v.func, ast.Attribute) \
+                        and v.func.attr == "rsplit" and len(v.args) == 2 and isinstance(v.args[0], ast.Constant) \
+                        and isinstance(v.args[1], ast.Constant) and v.args[1].value == 1:
+                    a, ta = self.E(v.func.value, env)
+                    if ta != "str":
+                        _bad(e, "rsplit of %s" % ta)
+                    return "(py_rsplit1_head %s %s)" % (chr_const(v.args[0].value, e), a), "str"
+                return Fn.subscript(self, e, env)
+        t, ty = FnStrip("_strip_path_tail", {}).E(elt, {var: "str"})
+        if ty != "str":
+            raise Unsupported("_strip_path_tail element of type %s" % ty)
+        out.append("(* util._strip_path_tail, line %d: the element of the set comprehension *)\n"
+                   "Definition gen_strip_tail (%s : str) : str :=\n  %s.\n\n" % (fd.lineno, ident(var), t))
 
-    class FnStrip(Fn):
-        def subscript(self, e, env):       # path.rsplit("/", 1)[0]
-            v = e.value
-            if isinstance(e.slice, ast.Constant) and e.slice.value == 0 and isinstance(v, ast.Call) and isinstance(v.func, ast.Attribute) \
-                    and v.func.attr == "rsplit" and len(v.args) == 2 and isinstance(v.args[0], ast.Constant) \
-                    and isinstance(v.args[1], ast.Constant) and v.args[1].value == 1:
-                a, ta = self.E(v.func.value, env)
-                if ta != "str":
-                    _bad(e, "rsplit of %s" % ta)
-                return "(py_rsplit1_head %s %s)" % (chr_const(v.args[0].value, e), a), "str"
-            return Fn.subscript(self, e, env)
-    t, ty = FnStrip("_strip_path_tail", {}).E(elt, {var: "str"})
-    if ty != "str":
-        raise Unsupported("_strip_path_tail element of type %s" % ty)
-    out.append("(* util._strip_path_tail, line %d: the element of the set comprehension *)\n"
-               "Definition gen_strip_tail (%s : str) : str :=\n  %s.\n\n" % (fd.lineno, ident(var), t))
+        return "".join(out)
+    def u_booltexts():
+        out = []
+        # ---- util.val_from_meta: inventories (the dispatch itself is numpy's: hand model + correspondence)
+        fd = find_def(ut, "val_from_meta")
+        params(fd, ["x", "meta"])
+        lit = None
+        for n in ast.walk(fd):
+            if isinstance(n, ast.If) and same_expr(n.test, "t == 'bool'") and len(n.body) == 1 and isinstance(n.body[0], ast.Return) \
+                    and isinstance(n.body[0].value, ast.Compare) and len(n.body[0].value.ops) == 1 and isinstance(n.body[0].value.ops[0], ast.In) \
+                    and same_expr(n.body[0].value.left, "x") and isinstance(n.body[0].value.comparators[0], ast.List):
+                lit = n.body[0].value.comparators[0]
+        if lit is None:
+            raise Unsupported("val_from_meta: `if t == 'bool': return x in [...]` not found")
+        texts = []
+        for e in lit.elts:       # x is a text: only the text members can be equal to it (True == 1 == "1" is false for a str)
+            if not isinstance(e, ast.Constant) or not isinstance(e.value, (str, bool, int)):
+                _bad(e, "member of the bool literal list")
+            if isinstance(e.value, str):
+                texts.append(str_const(e.value, e))
+        out.append("(* util.val_from_meta, line %d: the texts the bool branch reads as True *)\n"
+                   "Definition gen_bool_true_texts : list str := [%s].\n\n" % (lit.lineno, "; ".join(texts)))
 
-    # ---- util.val_from_meta: inventories (the dispatch itself is numpy's: hand model + correspondence)
-    fd = find_def(ut, "val_from_meta")
-    params(fd, ["x", "meta"])
-    lit = None
-    for n in ast.walk(fd):
-        if isinstance(n, ast.If) and same_expr(n.test, "t == 'bool'") and len(n.body) == 1 and isinstance(n.body[0], ast.Return) \
-                and isinstance(n.body[0].value, ast.Compare) and len(n.body[0].value.ops) == 1 and isinstance(n.body[0].value.ops[0], ast.In) \
-                and same_expr(n.body[0].value.left, "x") and isinstance(n.body[0].value.comparators[0], ast.List):
-            lit = n.body[0].value.comparators[0]
-    if lit is None:
-        raise Unsupported("val_from_meta: `if t == 'bool': return x in [...]` not found")
-    texts = []
-    for e in lit.elts:       # x is a text: only the text members can be equal to it (True == 1 == "1" is false for a str)
-        if not isinstance(e, ast.Constant) or not isinstance(e.value, (str, bool, int)):
-            _bad(e, "member of the bool literal list")
-        if isinstance(e.value, str):
-            texts.append(str_const(e.value, e))
-    out.append("(* util.val_from_meta, line %d: the texts the bool branch reads as True *)\n"
-               "Definition gen_bool_true_texts : list str := [%s].\n\n" % (lit.lineno, "; ".join(texts)))
+        return "".join(out)
+    def u_fastrel():
+        out = []
+        # ---- util.metadata_from_many, fast path: rg.columns[0].file_path = <f>[len(basepath):].lstrip("/")
+        fd = find_def(ut, "metadata_from_many")
+        rels = []
+        for n in ast.walk(fd):
+            if isinstance(n, ast.Assign) and len(n.targets) == 1 and ast.unparse(n.targets[0]) == "rg.columns[0].file_path":
+                if not (isinstance(n.value, ast.Call) and isinstance(n.value.func, ast.Attribute) and n.value.func.attr == "lstrip"):
+                    _bad(n, "first-chunk path of the fast path that is not of the form f[len(basepath):].lstrip('/')")
+                names = sorted({x.id for x in ast.walk(n.value) if isinstance(x, ast.Name)} - {"len", "basepath"})
+                if len(names) != 1:
+                    _bad(n, "relative path of the fast path")
+                class Ren(ast.NodeTransformer):
+                    def visit_Name(self, node, old=names[0]):
+                        return ast.copy_location(ast.Name(id="f", ctx=node.ctx), node) if node.id == old else node
+                import copy
+                t, ty = Fn("metadata_from_many", {}).E(Ren().visit(copy.deepcopy(n.value)), {"basepath": "str", "f": "str"})
+                rels.append((t, ty, n.lineno))
+        if not rels or any(r[1] != "str" for r in rels) or len({r[0] for r in rels}) != 1:
+            raise Unsupported("metadata_from_many: the fast path's relative-path expressions not found or not all alike: %r" % (rels,))
+        out.append("(* util.metadata_from_many, lines %s: first-chunk path of a row group of file f on the footer fast path *)\n"
+                   "Definition gen_fast_rel (basepath f : str) : str :=\n  %s.\n\n" % (", ".join(str(r[2]) for r in rels), rels[0][0]))
 
-    # ---- util.metadata_from_many, fast path: rg.columns[0].file_path = <f>[len(basepath):].lstrip("/")
-    fd = find_def(ut, "metadata_from_many")
-    rels = []
-    for n in ast.walk(fd):
-        if isinstance(n, ast.Assign) and len(n.targets) == 1 and ast.unparse(n.targets[0]) == "rg.columns[0].file_path":
-            if not (isinstance(n.value, ast.Call) and isinstance(n.value.func, ast.Attribute) and n.value.func.attr == "lstrip"):
-                _bad(n, "first-chunk path of the fast path that is not of the form f[len(basepath):].lstrip('/')")
-            names = sorted({x.id for x in ast.walk(n.value) if isinstance(x, ast.Name)} - {"len", "basepath"})
-            if len(names) != 1:
-                _bad(n, "relative path of the fast path")
-            class Ren(ast.NodeTransformer):
-                def visit_Name(self, node, old=names[0]):
-                    return ast.copy_location(ast.Name(id="f", ctx=node.ctx), node) if node.id == old else node
-            import copy
-            t, ty = Fn("metadata_from_many", {}).E(Ren().visit(copy.deepcopy(n.value)), {"basepath": "str", "f": "str"})
-            rels.append((t, ty, n.lineno))
-    if not rels or any(r[1] != "str" for r in rels) or len({r[0] for r in rels}) != 1:
-        raise Unsupported("metadata_from_many: the fast path's relative-path expressions not found or not all alike: %r" % (rels,))
-    out.append("(* util.metadata_from_many, lines %s: first-chunk path of a row group of file f on the footer fast path *)\n"
-               "Definition gen_fast_rel (basepath f : str) : str :=\n  %s.\n\n" % (", ".join(str(r[2]) for r in rels), rels[0][0]))
+        return "".join(out)
+    def u_SECTION():
+        out = []
+        # ---- the functions over partition values live in a section over the external conversions
+        out.append("Section GenValues.\n  Variables F T D : Type.\n  Variable show_float : F -> str.\n  Variable show_time_iso : T -> str.\n"
+                   "  Variable show_time_str : T -> str.\n  Variable parse_float : bool -> str -> option F.\n"
+                   "  Variable parse_time_pd : str -> option T.\n  Variable parse_delta : str -> option D.\n"
+                   "  Notation value := (Partition.value F T D).\n"
+                   "  Notation py_str := (PyPaths.py_str F T D show_float show_time_iso show_time_str).\n"
+                   "  Notation py_isoformat := (PyPaths.py_isoformat F T D show_time_iso).\n"
+                   "  Notation py_is_timestamp := (PyPaths.py_is_timestamp F T D).\n\n")
 
-    # ---- the functions over partition values live in a section over the external conversions
-    out.append("Section GenValues.\n  Variables F T D : Type.\n  Variable show_float : F -> str.\n  Variable show_time_iso : T -> str.\n"
-               "  Variable show_time_str : T -> str.\n  Variable parse_float : bool -> str -> option F.\n"
-               "  Variable parse_time_pd : str -> option T.\n  Variable parse_delta : str -> option D.\n"
-               "  Notation value := (Partition.value F T D).\n"
-               "  Notation py_str := (PyPaths.py_str F T D show_float show_time_iso show_time_str).\n"
-               "  Notation py_isoformat := (PyPaths.py_isoformat F T D show_time_iso).\n"
-               "  Notation py_is_timestamp := (PyPaths.py_is_timestamp F T D).\n\n")
+        return "".join(out)
+    def u_pathstring():
+        out = []
+        # ---- util.path_string(o)
+        fd = find_def(ut, "path_string")
+        params(fd, ["o"])
 
-    # ---- util.path_string(o)
-    fd = find_def(ut, "path_string")
-    params(fd, ["o"])
+        def ret_str(vals, node):
+            if isinstance(vals, list) and len(vals) == 1 and vals[0][1] == "str":
+                return vals[0][0]
+            _bad(node, "path_string returns %r" % (vals,))
+        body = Fn("path_string", {}).block(fd.body, {"o": "value"}, ret_str)
+        out.append("  (* util.path_string, line %d *)\n  Definition gen_path_string (o : value) : str :=\n  %s.\n\n" % (fd.lineno, body))
 
-    def ret_str(vals, node):
-        if isinstance(vals, list) and len(vals) == 1 and vals[0][1] == "str":
-            return vals[0][0]
-        _bad(node, "path_string returns %r" % (vals,))
-    body = Fn("path_string", {}).block(fd.body, {"o": "value"}, ret_str)
-    out.append("  (* util.path_string, line %d *)\n  Definition gen_path_string (o : value) : str :=\n  %s.\n\n" % (fd.lineno, body))
+        return "".join(out)
+    def u_valtonum():
+        out = []
+        # ---- util._val_to_num(x): x is a text (the `isinstance(x, numbers.Real)` exit concerns non-texts and is skipped)
+        fd = find_def(ut, "_val_to_num")
+        params(fd, ["x"])
+        stmts = list(fd.body)
+        if stmts and isinstance(stmts[0], ast.If) and ast.unparse(stmts[0].test) == "isinstance(x, numbers.Real)" \
+                and len(stmts[0].body) == 1 and isinstance(stmts[0].body[0], ast.Return) and ast.unparse(stmts[0].body[0].value) == "x" \
+                and not stmts[0].orelse:
+            stmts = stmts[1:]
 
-    # ---- util._val_to_num(x): x is a text (the `isinstance(x, numbers.Real)` exit concerns non-texts and is skipped)
-    fd = find_def(ut, "_val_to_num")
-    params(fd, ["x"])
-    stmts = list(fd.body)
-    if stmts and isinstance(stmts[0], ast.If) and ast.unparse(stmts[0].test) == "isinstance(x, numbers.Real)" \
-            and len(stmts[0].body) == 1 and isinstance(stmts[0].body[0], ast.Return) and ast.unparse(stmts[0].body[0].value) == "x" \
-            and not stmts[0].orelse:
-        stmts = stmts[1:]
+        def ret_val(vals, node):
+            if isinstance(vals, list) and len(vals) == 1:
+                t, ty = vals[0]
+                if ty == "value":
+                    return t
+                if ty == "str":
+                    return "VStr %s" % t
+                if ty == "bool":
+                    return "VBool %s" % t
+            _bad(node, "_val_to_num returns %r" % (vals,))
+        body = Fn("_val_to_num", {}).block(stmts, {"x": "str"}, ret_val)
+        out.append("  (* util._val_to_num, line %d *)\n  Definition gen_val_to_num (x : str) : value :=\n  %s.\n\n" % (fd.lineno, body))
 
-    def ret_val(vals, node):
-        if isinstance(vals, list) and len(vals) == 1:
-            t, ty = vals[0]
-            if ty == "value":
-                return t
-            if ty == "str":
-                return "VStr %s" % t
-            if ty == "bool":
-                return "VBool %s" % t
-        _bad(node, "_val_to_num returns %r" % (vals,))
-    body = Fn("_val_to_num", {}).block(stmts, {"x": "str"}, ret_val)
-    out.append("  (* util._val_to_num, line %d *)\n  Definition gen_val_to_num (x : str) : value :=\n  %s.\n\n" % (fd.lineno, body))
+        return "".join(out)
+    def u_naming():
+        out = []
+        # ---- writer.partition_on_columns: the naming statements
+        fd = find_def(wt, "partition_on_columns")
+        path_if, relname = None, None
+        for n in ast.walk(fd):
+            if isinstance(n, ast.If) and isinstance(n.test, ast.Name) and n.test.id == "with_field" and len(n.body) == 1 and len(n.orelse) == 1 \
+                    and all(isinstance(b, ast.Assign) and len(b.targets) == 1 and isinstance(b.targets[0], ast.Name) and b.targets[0].id == "path"
+                            for b in (n.body[0], n.orelse[0])):
+                path_if = n
+            if isinstance(n, ast.Assign) and len(n.targets) == 1 and isinstance(n.targets[0], ast.Name) and n.targets[0].id == "relname":
+                relname = n
+        if path_if is None or relname is None:
+            raise Unsupported("partition_on_columns: `if with_field: path = ... else: path = ...` / `relname = ...` not found")
+        funcs = {"path_string": ("gen_path_string", ["value"], "str")}
+        env = {"with_field": "bool", "columns": "list str", "key": "list value"}
+        a, ta = Fn("partition_on_columns", funcs).E(path_if.body[0].value, env)
+        b, tb = Fn("partition_on_columns", funcs).E(path_if.orelse[0].value, env)
+        if ta != "str" or tb != "str":
+            raise Unsupported("partition_on_columns: path of type %s / %s" % (ta, tb))
+        out.append("  (* writer.partition_on_columns, line %d: directory of a key *)\n"
+                   "  Definition gen_dir_path (with_field : bool) (columns : list str) (key : list value) : str :=\n"
+                   "  if with_field then %s\n  else %s.\n\n" % (path_if.lineno, a, b))
+        r, tr_ = Fn("partition_on_columns", funcs).E(relname.value, {"path": "str", "partname": "str"})
+        if tr_ != "str":
+            raise Unsupported("partition_on_columns: relname of type %s" % tr_)
+        out.append("  (* writer.partition_on_columns, line %d *)\n  Definition gen_relname (path partname : str) : str :=\n  %s.\n"
+                   % (relname.lineno, r))
+        return "".join(out)
+    def u_cats():
+        out = []
+        # ---- api.paths_to_cats(paths, partition_meta=None)
+        fd = find_def(at, "paths_to_cats")
+        params(fd, ["paths", "partition_meta"])
+        pd_ = find_def(at, "_path_to_cats")
+        params(pd_, ["paths", "parts", "file_scheme", "partition_meta"])
+        dfl = pd_.args.defaults
+        if not (len(dfl) == 2 and isinstance(dfl[0], ast.Constant) and dfl[0].value in ("hive", "drill") and isinstance(dfl[1], ast.Constant) and dfl[1].value is None):
+            raise Unsupported("_path_to_cats: defaults of file_scheme / partition_meta")
+        first = [x for x in pd_.body if not (isinstance(x, ast.Expr) and isinstance(x.value, ast.Constant))][0]
+        if ast.unparse(first) != "partition_meta = partition_meta or {}":
+            raise Unsupported("_path_to_cats does not start with `partition_meta = partition_meta or {}`")
+        out.append("\n" + translate_path_to_cats(pd_))
+        body = FnCats("paths_to_cats", dfl[0].value).block(fd.body, {"paths": "list str", "partition_meta": "meta"}, None)
+        out.append("\n  (* api.paths_to_cats, line %d.  path_to_cats_ hive? metadata zip(paths, parts) stands for api._path_to_cats; dirs for the elements of\n"
+                   "     the set _strip_path_tail(paths) in iteration order; a missing file_path (None) is the empty text *)\n"
+                   "  Notation cats := (list (str * list value)).\n  Notation meta := (list (str * kind)).\n"
+                   "  Definition gen_paths_to_cats (path_to_cats_ : bool -> meta -> list (str * list str) -> res cats)\n"
+                   "      (partition_meta : meta) (paths : list str) (dirs : list str) : res (scheme * cats) :=\n  %s.\n" % (fd.lineno, body))
 
-    # ---- writer.partition_on_columns: the naming statements
-    fd = find_def(wt, "partition_on_columns")
-    path_if, relname = None, None
-    for n in ast.walk(fd):
-        if isinstance(n, ast.If) and isinstance(n.test, ast.Name) and n.test.id == "with_field" and len(n.body) == 1 and len(n.orelse) == 1 \
-                and all(isinstance(b, ast.Assign) and len(b.targets) == 1 and isinstance(b.targets[0], ast.Name) and b.targets[0].id == "path"
-                        for b in (n.body[0], n.orelse[0])):
-            path_if = n
-        if isinstance(n, ast.Assign) and len(n.targets) == 1 and isinstance(n.targets[0], ast.Name) and n.targets[0].id == "relname":
-            relname = n
-    if path_if is None or relname is None:
-        raise Unsupported("partition_on_columns: `if with_field: path = ... else: path = ...` / `relname = ...` not found")
-    funcs = {"path_string": ("gen_path_string", ["value"], "str")}
-    env = {"with_field": "bool", "columns": "list str", "key": "list value"}
-    a, ta = Fn("partition_on_columns", funcs).E(path_if.body[0].value, env)
-    b, tb = Fn("partition_on_columns", funcs).E(path_if.orelse[0].value, env)
-    if ta != "str" or tb != "str":
-        raise Unsupported("partition_on_columns: path of type %s / %s" % (ta, tb))
-    out.append("  (* writer.partition_on_columns, line %d: directory of a key *)\n"
-               "  Definition gen_dir_path (with_field : bool) (columns : list str) (key : list value) : str :=\n"
-               "  if with_field then %s\n  else %s.\n\n" % (path_if.lineno, a, b))
-    r, tr_ = Fn("partition_on_columns", funcs).E(relname.value, {"path": "str", "partname": "str"})
-    if tr_ != "str":
-        raise Unsupported("partition_on_columns: relname of type %s" % tr_)
-    out.append("  (* writer.partition_on_columns, line %d *)\n  Definition gen_relname (path partname : str) : str :=\n  %s.\n"
-               % (relname.lineno, r))
-    # ---- api.paths_to_cats(paths, partition_meta=None)
-    fd = find_def(at, "paths_to_cats")
-    params(fd, ["paths", "partition_meta"])
-    pd_ = find_def(at, "_path_to_cats")
-    params(pd_, ["paths", "parts", "file_scheme", "partition_meta"])
-    dfl = pd_.args.defaults
-    if not (len(dfl) == 2 and isinstance(dfl[0], ast.Constant) and dfl[0].value in ("hive", "drill") and isinstance(dfl[1], ast.Constant) and dfl[1].value is None):
-        raise Unsupported("_path_to_cats: defaults of file_scheme / partition_meta")
-    first = [x for x in pd_.body if not (isinstance(x, ast.Expr) and isinstance(x.value, ast.Constant))][0]
-    if ast.unparse(first) != "partition_meta = partition_meta or {}":
-        raise Unsupported("_path_to_cats does not start with `partition_meta = partition_meta or {}`")
-    out.append("\n" + translate_path_to_cats(pd_))
-    body = FnCats("paths_to_cats", dfl[0].value).block(fd.body, {"paths": "list str", "partition_meta": "meta"}, None)
-    out.append("\n  (* api.paths_to_cats, line %d.  path_to_cats_ hive? metadata zip(paths, parts) stands for api._path_to_cats; dirs for the elements of\n"
-               "     the set _strip_path_tail(paths) in iteration order; a missing file_path (None) is the empty text *)\n"
-               "  Notation cats := (list (str * list value)).\n  Notation meta := (list (str * kind)).\n"
-               "  Definition gen_paths_to_cats (path_to_cats_ : bool -> meta -> list (str * list str) -> res cats)\n"
-               "      (partition_meta : meta) (paths : list str) (dirs : list str) : res (scheme * cats) :=\n  %s.\n" % (fd.lineno, body))
-    out.append("End GenValues.\n")
-    return "".join(out)
+
+
+        return "".join(out)
+
+    def u_valfrommeta():
+        fmt = any(isinstance(n, ast.Assign) and len(n.targets) == 1 and isinstance(n.targets[0], ast.Name) and n.targets[0].id == "PATH_DATE_FMT"
+                  and isinstance(n.value, ast.Constant) and isinstance(n.value.value, str) for n in ut.body)
+        fd = find_def(ut, "val_from_meta")
+        params(fd, ["x", "meta"])
+        return translate_val_from_meta(fd, fmt)
+
+    def u_rowfill():
+        return translate_row_fill(find_def(ct, "read_row_group"))
+
+    def u_verify():
+        """util.metadata_from_many: `if verify_schema: for pf in pfs[A:]: if pf._schema != pfs[B]._schema: raise ValueError(...)`"""
+        fd = find_def(ut, "metadata_from_many")
+        hit = None
+        for n in ast.walk(fd):
+            if isinstance(n, ast.If) and same_expr(n.test, "verify_schema") and not n.orelse:
+                hit = n
+        if hit is None or len(hit.body) != 1 or not isinstance(hit.body[0], ast.For) or hit.body[0].orelse:
+            raise Unsupported("metadata_from_many: `if verify_schema: for pf in pfs[..]:` not found")
+        loop = hit.body[0]
+        it = loop.iter
+        if not (target_names(loop.target) == "pf" and isinstance(it, ast.Subscript) and same_expr(it.value, "pfs") and isinstance(it.slice, ast.Slice)
+                and it.slice.upper is None and it.slice.step is None and isinstance(it.slice.lower, ast.Constant) and isinstance(it.slice.lower.value, int)
+                and it.slice.lower.value >= 0):
+            _bad(loop, "files compared by the verification")
+        start = it.slice.lower.value
+        if not (len(loop.body) == 1 and isinstance(loop.body[0], ast.If) and not loop.body[0].orelse and len(loop.body[0].body) == 1
+                and isinstance(loop.body[0].body[0], ast.Raise) and ast.unparse(loop.body[0].body[0].exc).startswith("ValueError(")):
+            _bad(loop, "body of the verification loop")
+        t = loop.body[0].test
+        if not (isinstance(t, ast.Compare) and len(t.ops) == 1 and isinstance(t.ops[0], ast.NotEq) and same_expr(t.left, "pf._schema")
+                and isinstance(t.comparators[0], ast.Attribute) and t.comparators[0].attr == "_schema"
+                and isinstance(t.comparators[0].value, ast.Subscript) and same_expr(t.comparators[0].value.value, "pfs")
+                and isinstance(t.comparators[0].value.slice, ast.Constant) and isinstance(t.comparators[0].value.slice.value, int)
+                and t.comparators[0].value.slice.value >= 0):
+            _bad(t, "comparison of the verification (expected pf._schema != pfs[<n>]._schema: list inequality of the SchemaElement objects)")
+        ref = t.comparators[0].value.slice.value
+        return ("(* util.metadata_from_many, line %d: does verify_schema raise?  schemas = [pf._schema for pf in pfs]; schema_ne a b stands for a != b *)\n"
+                "Definition gen_verify_raises {S : Type} (schema_ne : S -> S -> bool) (schemas : list S) : bool :=\n"
+                "  match skipn %d schemas with\n  | [] => false\n  | later => match nth_error schemas %d with\n"
+                "              | Some s0 => existsb (fun s => schema_ne s s0) later\n              | None => false\n              end\n  end.\n\n"
+                % (loop.lineno, start, ref))
+
+    top = [("analyse", u_analyse, []), ("strip", u_strip, []), ("booltexts", u_booltexts, []), ("fastrel", u_fastrel, []), ("verify", u_verify, [])]
+    sec = [("pathstring", u_pathstring, []), ("valtonum", u_valtonum, []), ("naming", u_naming, ["pathstring"]), ("cats", u_cats, []),
+           ("valfrommeta", u_valfrommeta, ["booltexts"]), ("rowfill", u_rowfill, [])]
+    text, ok, failed = [HEADER], [], {}
+
+    def run(units):
+        for name, fn, deps in units:
+            missing = [d for d in deps if d not in ok]
+            if missing:
+                failed[name] = "needs %s, which failed closed" % ", ".join(missing)
+                continue
+            try:
+                t = fn()
+            except Unsupported as e:
+                failed[name] = str(e)
+                continue
+            text.append(t)
+            ok.append(name)
+    run(top)
+    text.append(u_SECTION())
+    run(sec)
+    text.append("End GenValues.\n")
+    return "".join(text), ok, failed
+
+
+def translate(util_src, writer_src, api_src=None):
+    """-> Gallina text of Gen/GenPaths.v; raises Unsupported when ANY unit fails (use translate_units for per-function results)"""
+    text, ok, failed = translate_units(util_src, writer_src, api_src)
+    if failed:
+        raise Unsupported("; ".join("%s: %s" % kv for kv in failed.items()))
+    return text
 
 
 if __name__ == "__main__":
